@@ -310,6 +310,21 @@ def run(prop, tier, replay=None):
         for v in unexplained[:10]:
             log("unexplained", v)
 
+    # the link-layer half of C07 is decided on LinkAddr.tla / the real link::layer::Layer
+    link_extra = {}
+    if prop == "C07" and not replay:
+        import link_check
+        lviol, link_extra = link_check.run_c07_link(tier, wd)
+        if lviol:
+            rc = 1
+            rp_dir = os.path.join(vlib.ROOT, "replays")
+            os.makedirs(rp_dir, exist_ok=True)
+            rp_path = os.path.join(rp_dir, "C07_link_%s.json" % vlib.sha(lviol[0]))
+            with open(rp_path, "w") as f:
+                json.dump({"property": "C07", "violation": lviol[0], "all": lviol[:50]}, f, indent=1)
+            out_lines.append("VIOLATION property=C07 replay=%s" % rp_path)
+            unexplained = unexplained + lviol[:20]
+
     # 7. evidence
     samples = []
     for a in abstract[:2] + abstract[-1:]:
@@ -332,6 +347,11 @@ def run(prop, tier, replay=None):
         "unexplained": unexplained[:20], "hangs": hangs, "open_deviations_modelled": devs_open,
         "exhaustive": False,
     }
+    cov.update(link_extra)
+    if link_extra:
+        cov["states"] += link_extra.get("link_states", 0)
+        cov["transitions"] += link_extra.get("link_transitions", 0)
+        cov["traces_validated_against_impl"] += link_extra.get("link_conforming", 0)
     vlib.write_evidence(prop, tier, "model_checking", cov,
                         ["bounded constants in the design check (2 points, <=3 updates, depth %d)" % (5 if tier == "quick" else 7),
                          "conformance and monitor verdicts only on executed scenarios",
